@@ -11,7 +11,7 @@ EXPLANATION = (
     "absorb the token). R5.2 the flag is monotone: it is assigned false only before the loop, every other write is true "
     "(`--` seen / trailing_var_arg). R5.3 tail values are pushed verbatim (to_value_os().to_owned(), no lossy conversion) "
     "and R5.4 the dont_delimit_trailing_values exemption in react covers every value index at or after trailing_idx (a "
-    "threshold comparison, not equality with one index); R5.5 values injected for an empty occurrence (default_missing_vals) are not treated as trailing (trailing_idx reset before the injection). NOT decided: positional-counter arithmetic, byte equality for all tails."
+    "threshold comparison, not equality with one index); R5.5 values injected for an empty occurrence (default_missing_vals) are not treated as trailing (trailing_idx reset before the injection). R5.6 positional counter after the escape: the counter jumps to the last positional only on the trailing_values edge; the allow_missing_positional look-ahead (`missing_pos`) is disabled once trailing_values holds; every rejection of a token in Parser::parse as an unknown argument sits on the !trailing_values edge (tail tokens are never `unknown`, in particular a `last` positional accepts them). NOT decided: the rest of the positional-counter arithmetic, byte equality for all tails."
 )
 TRUSTED = ["rustc MIR", "clapfacts", "edge-dominance on the MIR CFG"]
 ASSUMPTIONS = ["ArgMatcher::start_trailing records the index of the first trailing value in the pending argument"]
@@ -119,3 +119,30 @@ def run(ctx):
         okr = any(rc.block_dominates(i, c.bb) and has_bool(rc, i, "T", r"^is_empty\(") for i in resets)
         res.check(okr, "R5.5", "default-missing-not-trailing", c.where(), "trailing_idx = None before injecting default_missing_vals",
                   "default-missing values are injected while the occurrence still carries its trailing index: with dont_delimit_trailing_values an option followed directly by `--` keeps its default-missing value unsplit")
+
+
+    # ---- R5.6 positional counter / rejection after the escape
+    pcs = pp.locals_named("pos_counter")
+    jumps = []
+    for i, j, s_ in pp.stmts():
+        if s_["k"] == "assign" and s_["rv"]["k"] == "use" and isinstance(s_["place"], int):
+            e = expr(pp, s_["rv"]["op"])
+            if re.match(r"^count\(filter\(keys\(get_keymap\(self\.cmd\)\)", e) and (s_["place"] in pcs or any(d[0] for l in pcs for d in pp.def_sites(l) if isinstance(d[3], dict) and d[3]["k"] == "use" and d[3]["op"].get("mv", d[3]["op"].get("cp")) == s_["place"])):
+                jumps.append(i)
+    res.floor("R5.6", "jump of pos_counter to the last positional", len(jumps), 1)
+    for i in jumps:
+        res.check(has_bool(pp, i, "T", r"^trailing_values$"), "R5.6", "jump-to-last-only-after-escape", "%s bb%d" % (pp.where(), i), "pos_counter := #positionals only when trailing_values",
+                  "the positional counter jumps to the last positional without `--` having been seen (guards %s)" % [g for g in guard_strs(pp, i) if re.match(r"^[TF]:", g)])
+    mps = pp.locals_named("missing_pos")
+    defs = [d for l in mps for d in pp.def_sites(l) if isinstance(d[3], dict) and not (d[3]["k"] == "use" and op_int(d[3]["op"]) == 0)]
+    res.floor("R5.6", "definition of missing_pos", len(defs), 1)
+    for d in defs:
+        rv = d[3]
+        okm = rv["k"] == "unop" and rv["op"] == "Not" and expr(pp, rv["a"]) == "trailing_values" and has_bool(pp, d[0], "T", r"^is_allow_missing_positional_set\(self\.cmd\)$")
+        res.check(okm, "R5.6", "missing-pos-lookahead-off-after-escape", "%s bb%d" % (pp.where(), d[0]), "missing_pos = allow_missing_positional && second-to-last && !trailing_values",
+                  "the allow_missing_positional look-ahead stays active after `--` (missing_pos no longer ends in && !trailing_values)")
+    ua = pp.calls_to(r"error::Error::unknown_argument$")
+    res.floor("R5.6", "unknown_argument sites in Parser::parse", len(ua), 2)
+    for c in ua:
+        res.check(has_bool(pp, c.bb, "F", r"^trailing_values$"), "R5.6", "no-unknown-argument-after-escape|" + ("last" if has_bool(pp, c.bb, "T", r"^is_last_set\(") else "other"), c.where(),
+                  "unknown-argument rejection only before `--`", "a token after `--` can be rejected as an unknown argument (guards %s)" % [g[:60] for g in guard_strs(pp, c.bb) if re.match(r"^[TF]:", g)])
